@@ -12,6 +12,13 @@ correspondence: random documents (pictures by file / bytes / explicit name, thum
 oracle:         the property text on the real archive (pkgcommon.oracle_c03): first-entry conditions, required
                 members, no duplicate names, manifest files == archive files, '/' and object folders carry the
                 media types, every registered picture byte-identical under folder + returned href with its type.
+                For a document that came from load(): the extra members, object files and object pictures of the loaded
+                package (read with zipfile + expat, pkgcommon.carried_of) are in every saved package of that document under
+                their own paths, byte-identical, with the media type they were listed with (pkgcommon.oracle_carried; the
+                model side of this clause is Props/C03 `extras_present` / Props/C05Extras `extras_carried`).
+                Loaded packages hold objects 2 and 3 deep under any number ('chain'), each with a picture and files of its own.
+                A failure in the first save of a document is replayed after the last loaded and the last built document the
+                process saved before it (`process_before`): state that leaks from one save of a process into the next.
 """
 import os, json, tempfile, shutil, mimetypes
 import pkgcommon as pk
@@ -83,6 +90,11 @@ def gen_package(rng, special=None):
         ps['objects'].append({'num': n, 'kind': rng.choice(['text', 'spreadsheet']), 'settings': rng.random() < 0.3,
                               'pics': [(u'Pictures/obj%d.png' % n, u'image/png', bytes([n, 1, 2]).hex())] if rng.random() < 0.5 else [],
                               'nested': rng.random() < 0.3, 'files': rng.random() < 0.4})
+    for o in ps['objects']:
+        # objects inside objects, 2 and 3 deep, under any number: each level a document kind of its own, a picture, files of its own
+        if not o['nested'] and rng.random() < 0.35:
+            o['chain'] = [{'num': rng.choice([1, 1, 2, 7, 10]), 'kind': rng.choice(['text', 'spreadsheet', 'chart']),
+                           'pic': rng.random() < 0.7, 'file': rng.random() < 0.7} for _ in range(rng.choice([1, 1, 2]))]
     if ps['objects'] and rng.random() < 0.3:
         # any numbering, any name length: the folder name is what matters now
         for o, n in zip(ps['objects'], rng.sample([7, 2, 10, 100, 12345, 3], len(ps['objects']))):
@@ -149,6 +161,22 @@ def package_parts(ps):
             man.extend(ds)
         for n, mt, hx in o['pics']:
             add(F + n, bytes.fromhex(hx), mt)
+        G = F
+        for lvl, co in enumerate(o.get('chain') or []):
+            # F/Object a/ (depth 2), F/Object a/Object b/ (depth 3): parts with a marker of their own, a picture, other files
+            G = G + u'Object %d/' % co['num']
+            mk = 4000000 + 10 * o['num'] + lvl
+            man.append((G, pk.KINDS[co['kind']]))
+            cp = pk.parts_of(co['kind'], mk, False)
+            for n in ('content.xml', 'styles.xml'):
+                add(G + n, cp[n], u'text/xml')
+            if co['pic']:
+                add(G + u'Pictures/deep%d.png' % lvl, bytes([lvl, o['num'] % 256, 5]), u'image/png')
+            if co['file']:
+                add(G + u'extra.bin', bytes([lvl, o['num'] % 256, 6]), u'application/x-thing')
+                add(G + u'ObjectReplacements/Object 1', bytes([lvl, o['num'] % 256, 7]), u'application/x-openoffice-gdimetafile')
+                add(G + u'Configurations2/menubar/menubar.xml', bytes([60, lvl, 62]), u'')
+                man.append((G + u'Configurations2/', u'application/vnd.sun.xml.ui.configuration'))
         if o['nested']:
             G = F + u'Object 1/'
             man.append((G, pk.KINDS['text']))
@@ -297,6 +325,8 @@ def run_case(chk, drv, case, oracle_only=False):
             raw0 = pk.make_package(pspec)
             doc = load(io.BytesIO(raw0))
             top = mirror_of_loaded(doc, pk.dedup_keys(pspec['manifest']))
+            arch0 = pk.read_archive(raw0)           # the package as it was handed to load()
+            nregs0 = len(top.regs)
             if not oracle_only:
                 ans = drv.ask(pk.load_request(pspec, nonempty))
                 chk.corr()
@@ -332,6 +362,12 @@ def run_case(chk, drv, case, oracle_only=False):
                 else:
                     pk.compare_listing(chk, case, ans[3:], arch, files, marker_of, what)
             res = pk.oracle_c03(arch, node, loaded and node is top)
+            if loaded and node is top:
+                # the files the document was loaded with (extra members, files and pictures of its objects at any depth) are
+                # files of its package at every save; paths registered anew through the API since the load are the caller's
+                got = pk.oracle_carried(arch0, arch, skip=set(r[0] for r in top.regs[nregs0:]))
+                chk.count('loaded_files_looked_up_in_saved_package', len(pk.carried_of(arch0)))
+                res = res + got
             if node is not top and reserved_extras(node):
                 # KF-C03-4: a sub-document that carries an extra named like a member every package root gets, saved on its own
                 res = [('subdocument-with-reserved-extra-saved-on-its-own', d) if sig in (
@@ -421,6 +457,14 @@ def gen_cases(chk, n):
     nb['objects'] = [{'num': 1, 'kind': 'text', 'settings': True, 'pics': [(u'Pictures/obj1.png', u'image/png', '010102')], 'nested': True, 'files': True},
                      {'num': 12, 'kind': 'spreadsheet', 'settings': False, 'pics': [], 'nested': True, 'files': True}]
     yield {'doc': {'kind': nb['kind'], 'settings': False, 'thumb': None, 'pics': [], 'kids': []}, 'base': nb}
+    cb = gen_package(rng)
+    cb['objects'] = [{'num': 1, 'kind': 'spreadsheet', 'settings': False, 'pics': [(u'Pictures/obj1.png', u'image/png', '010102')], 'nested': False, 'files': True,
+                      'chain': [{'num': 1, 'kind': 'chart', 'pic': True, 'file': True}, {'num': 1, 'kind': 'text', 'pic': True, 'file': True}]},
+                     {'num': 2, 'kind': 'text', 'settings': True, 'pics': [], 'nested': False, 'files': False,
+                      'chain': [{'num': 7, 'kind': 'spreadsheet', 'pic': True, 'file': False}]},
+                     {'num': 3, 'kind': 'text', 'settings': False, 'pics': [], 'nested': False, 'files': False,
+                      'chain': [{'num': 2, 'kind': 'chart', 'pic': False, 'file': False}, {'num': 10, 'kind': 'chart', 'pic': False, 'file': True}]}]
+    yield {'doc': {'kind': cb['kind'], 'settings': False, 'thumb': None, 'pics': [], 'kids': []}, 'base': cb, 'via': ['fileobj', 'write', 'name']}
     yield {'doc': {'kind': 'text', 'settings': False, 'thumb': None, 'kids': [],
                    'pics': [{'how': 'file', 'data': '616263', 'mt': None, 'ext': '', 'relpath': u'd.//a'}]}, 'base': None}
     # exhaustive matrix: picture kind x nesting depth of the object that owns it x thumbnail x settings x extras
@@ -453,10 +497,13 @@ def run(chk, replay=None):
     chk.rule = ('seeded random document trees (depth <= 4 levels, <= 3 objects per level, 0-3 pictures per document drawn from '
                 'addPictureFromFile / addPicture(file) / addPictureFromString / addPicture(name, type, bytes), thumbnail, settings on/off); '
                 'explicit names and loaded member names include %XX escapes, blanks, + # ? & quotes < >, non-ASCII, case variants, a leading ./ and pairs differing only by such an encoding; '
-                '30% start from load() of a hand-made package with extras, directories, pictures, objects and a shuffled manifest; '
+                '30% start from load() of a hand-made package with extras, directories, pictures, objects (35% of them holding objects 2 and 3 deep with pictures and files of their own) and a shuffled manifest; every file of the loaded package that save() does not write afresh is looked up under its path in each of the three saved packages; '
                 'plus the exhaustive matrix picture kind x owner depth 0..3 x thumbnail x settings x from-load (128 cases); every media type incl. templates made with add_generator=False (empty meta/settings/body/styles); saved through save(file object) / save(name) / save(name, addsuffix) / write(); each case saved three times; up to 3 sub-documents of each tree saved as a package of their own; '
                 'non-trivial = at least one embedded object or picture or extra')
     if replay is not None:
+        # a failure seen in the FIRST save of a document is replayed after the documents the process saved before it
+        for before in replay['input'].get('process_before') or []:
+            run_case(chk, None, before, oracle_only=True)
         bad, top, arch = run_case(chk, None, replay['input'], oracle_only=True)
         print('replay: members=%r' % (arch.names,))
         print('replay: manifest=%r' % (arch.manifest,))
@@ -470,9 +517,13 @@ def run(chk, replay=None):
     drv = chk.driver('drv_pkg')
     n = 6000 if chk.tier == 'thorough' else 900
 
+    recent = {}      # the last loaded and the last built document this process saved: the process history of the next case
+
     def sweep(cases, oracle_only=False):
         for case in cases:
+            before = [recent[k] for k in sorted(recent)]
             bad, top, arch = run_case(chk, drv, case, oracle_only)
+            recent['loaded' if case['base'] is not None else 'built'] = case
             docs = list(top.walk())
             npics = sum(len(x.regs) for x in docs)
             chk.case(json.dumps([shape(case['doc']), case['base'] and sorted(case['base'].items())], sort_keys=True, default=repr),
@@ -488,7 +539,15 @@ def run(chk, replay=None):
             if top.thumb is not None:
                 chk.count('with_thumbnail')
             for sig, d in bad:
-                chk.fail(sig, case, d)
+                if sig.endswith('-on-second-save') or sig.endswith('-on-third-save'):
+                    chk.fail(sig, case, d)
+                else:
+                    chk.fail(sig, case, d, replay=dict(case, process_before=before))
+            if len(chk.failures) >= 50:
+                # the run has failed and no further failing input is recorded (common.fail keeps 50): stop here - a fault that makes
+                # every save slower than the one before (state that grows from save to save) must not keep the check from answering
+                chk.count('sweep_stopped_after_50_failing_inputs')
+                break
 
     sweep(gen_cases(chk, n))
     chk.deep_search = lambda: sweep(gen_cases(chk, 2 * n), oracle_only=True)
